@@ -2,6 +2,7 @@ package main
 
 import (
 	"fmt"
+	"go/constant"
 	"go/token"
 	"go/types"
 	"sort"
@@ -1308,6 +1309,12 @@ func (P *Prog) decideIndex(r *Result, g *modCG, fn *ssa.Function, s panicSite, c
 		}
 	}
 	if !tainted {
+		// a segment of the issue path is a schema key or a field's zog tag, and a tag may be empty (`zog:""` is accepted
+		// by the struct pipeline and names the field by the key ""): indexing a segment needs a length test
+		if P.isPathSegment(s.operand) && !P.lenDominates(b, s.operand) && !P.emptyTestDominates(b, s.operand) {
+			r.bad("C06/panic-site", c, pos, "a segment of the issue path is indexed without a length test: a field whose zog tag is empty (valid configuration, it parses) makes the path of any issue below a nested struct panic with 'index out of range'")
+			return
+		}
 		r.ok("C06/panic-site", c, pos, "index/slice of a schema key, tag or library-owned buffer (configuration)")
 		return
 	}
@@ -1317,6 +1324,40 @@ func (P *Prog) decideIndex(r *Result, g *modCG, fn *ssa.Function, s panicSite, c
 		return
 	}
 	r.bad("C06/panic-site", c, pos, "index/slice of a value derived from input data ["+via+"] without a dominating length test")
+}
+
+// isPathSegment: v is an element read out of a PathBuilder.
+func (P *Prog) isPathSegment(v ssa.Value) bool {
+	u, ok := cv(v).(*ssa.UnOp)
+	if !ok || u.Op != token.MUL {
+		return false
+	}
+	ia, ok := u.X.(*ssa.IndexAddr)
+	if !ok {
+		return false
+	}
+	t := ia.X.Type()
+	if pt, isP := t.Underlying().(*types.Pointer); isP {
+		t = pt.Elem()
+	}
+	return sameNamed(t, P.roles.PathB)
+}
+
+// emptyTestDominates: b is control-dependent on a comparison of x with the empty string.
+func (P *Prog) emptyTestDominates(b *ssa.BasicBlock, x ssa.Value) bool {
+	for _, gd := range guardsOf(b) {
+		bo, ok := gd.If.Cond.(*ssa.BinOp)
+		if !ok || (bo.Op != token.EQL && bo.Op != token.NEQ) {
+			continue
+		}
+		for i, side := range []ssa.Value{bo.X, bo.Y} {
+			other := []ssa.Value{bo.Y, bo.X}[i]
+			if c, isC := other.(*ssa.Const); isC && c.Value != nil && c.Value.Kind() == constant.String && constant.StringVal(c.Value) == "" && sameValue(side, x) {
+				return true
+			}
+		}
+	}
+	return false
 }
 
 // lenGuard: bound is len(x) and b is dominated by len(x) <= n (or < n+1).
